@@ -2,29 +2,31 @@
 """apply each seeded change to /repo, run the quick check of its property, undo; report caught/missed
 usage: seeded_run.py [id-substring ...] [--tier thorough]"""
 import json, os, subprocess, sys, glob
+ROOT = os.path.dirname(os.path.dirname(os.path.abspath(__file__)))          # the /verif tree this script belongs to
+REPO = os.environ.get('VERIF_REPO', '/repo')                                   # the tree that gets patched
 args = [a for a in sys.argv[1:] if not a.startswith('--')]
 tier = 'thorough' if '--tier' in sys.argv and 'thorough' in sys.argv else 'quick'
 res = []
-for d in sorted(glob.glob('/verif/seeded/*/')):
+for d in sorted(glob.glob(ROOT + '/seeded/*/')):
     meta = json.load(open(d + 'meta.json'))
     if args and not any(a in meta['id'] for a in args):
         continue
-    st = subprocess.run(['git', '-C', '/repo', 'status', '--porcelain', '--untracked-files=no'], capture_output=True).stdout.decode().strip()
+    st = subprocess.run(['git', '-C', REPO, 'status', '--porcelain', '--untracked-files=no'], capture_output=True).stdout.decode().strip()
     if st:
         print('REFUSING: /repo has tracked modifications'); sys.exit(2)
-    ap = subprocess.run(['git', '-C', '/repo', 'apply', d + 'patch.diff'], capture_output=True)
+    ap = subprocess.run(['git', '-C', REPO, 'apply', d + 'patch.diff'], capture_output=True)
     if ap.returncode:
         print(meta['id'], 'PATCH DOES NOT APPLY', ap.stderr.decode()[:300]); res.append((meta['id'], 'noapply')); continue
     try:
         props = meta['property'] if isinstance(meta['property'], list) else [meta['property']]
         out = []
         for p in props:
-            r = subprocess.run(['./check', p, '--tier', tier], cwd='/verif', capture_output=True)
+            r = subprocess.run(['./check', p, '--tier', tier], cwd=ROOT, capture_output=True)
             viol = [l for l in r.stdout.decode().splitlines() if l.startswith('VIOLATION')]
             out.append((p, r.returncode, len(viol)))
         caught = any(rc == 1 and n > 0 for _, rc, n in out)
         print(meta['id'], 'CAUGHT' if caught else 'MISSED', out)
         res.append((meta['id'], 'caught' if caught else 'missed'))
     finally:
-        subprocess.run(['git', '-C', '/repo', 'checkout', '--', '.'])
+        subprocess.run(['git', '-C', REPO, 'checkout', '--', '.'])
 print(json.dumps(res))
